@@ -1,6 +1,6 @@
 (** C08/Corr.v — executable comparison of the real LuaPropertyIndex / LuaGlobalIndex / DiagnosticIndex
     (observations written by the harness after every op) with the models. *)
-From EV Require Import C08.SimpleModels.
+From EV Require Import C08.SimpleModels C10.TypeModel.
 Local Open Scope N_scope.
 
 Inductive iop := IAdd (f : N) (facts : list (N * N * N)) | IRemove (f : N) | IClear.
@@ -83,10 +83,36 @@ Fixpoint check_d (s : didx) (c : dcase) : bool :=
       && nl_eqb (d_sizes s') sizes && check_d s' r
   end.
 
-Inductive case := CP (c : pcase) | CG (c : gcase) | CD (c : dcase).
+(** ---- type index: per file 1..4 (namespace, using, declared ids), per type 0..3 (locations, raw supers, found) ---- *)
+Definition onl_eqb (a b : option (list N)) : bool :=
+  match a, b with Some x, Some y => nl_eqb x y | None, None => true | _, _ => false end.
+Definition tfile_obs := (option N * option (list N) * list N)%type.
+Definition ttype_obs := (option (list (N * N)) * option (list N) * bool)%type.
+Definition tcase := list (iop * (list tfile_obs * list ttype_obs * list N)).
+Fixpoint check_t (s : tidx) (c : tcase) : bool :=
+  match c with
+  | [] => true
+  | (o, (fobs, tobs, sizes)) :: r =>
+      let s' := match o with
+                | IAdd f facts => t_add f facts s
+                | IRemove f => t_remove f s
+                | IClear => t_clear s
+                end in
+      all2 (fun f (x : tfile_obs) =>
+              on_eqb (ngetN f (t_ns s')) (fst (fst x)) && onl_eqb (ngetN f (t_using s')) (snd (fst x))
+              && nl_eqb (t_file_decls s' f) (snd x)) [1; 2; 3; 4] fobs
+      && all2 (fun t (x : ttype_obs) =>
+              odl_eqb (ngetN t (t_decls s')) (fst (fst x))
+              && onl_eqb (option_map (map snd) (ngetN t (t_supers s'))) (snd (fst x))
+              && Bool.eqb (t_found s' t) (snd x)) (seq_from 0 (length tobs)) tobs
+      && nl_eqb (t_sizes s') sizes && check_t s' r
+  end.
+
+Inductive case := CP (c : pcase) | CG (c : gcase) | CD (c : dcase) | CT (c : tcase).
 Definition check_case (k : case) : bool :=
   match k with
   | CP c => check_p p_init c
   | CG c => check_g g_init c
   | CD c => check_d d_init c
+  | CT c => check_t t_init c
   end.
